@@ -1,73 +1,11 @@
 ----------------------------- MODULE RegFile -----------------------------
 (***************************************************************************)
-(* The x86-64 general-purpose register file as seen through ax's public    *)
-(* register API (reg_read_8/16/32/64, reg_write_8/16/32/64).               *)
-(*                                                                         *)
-(* A 64-bit register is a little-endian sequence of RegLen digits (8 bytes *)
-(* when Base = 256).  A view is (base register, first digit, #digits).     *)
-(* One action per public call; the call's result is part of the action.    *)
+(* The register API of ax as a state machine over the pure view semantics  *)
+(* of RegViews.tla: one action per public call, result included.           *)
 (***************************************************************************)
-EXTENDS BV
+EXTENDS RegViews
 
-CONSTANTS RegLen,      \* digits per 64-bit register: 8 for Base = 256; MC uses the same 8 with a tiny Base
-          ModelRegs    \* the registers carried in the state (all 17 in trace validation, a few in MC)
-
-Gpr64 == {"RAX","RBX","RCX","RDX","RSI","RDI","RSP","RBP","R8","R9","R10","R11","R12","R13","R14","R15"}
-AllRegs == Gpr64 \cup {"RIP"}
-
-\* digits of the four widths (a "byte" is one digit)
-D8 == 1   D16 == 2   D32 == 4   D64 == RegLen
-DigitsOf(w) == CASE w = 8 -> D8 [] w = 16 -> D16 [] w = 32 -> D32 [] w = 64 -> D64
-
-Base64 ==
-  [AL |-> "RAX", BL |-> "RBX", CL |-> "RCX", DL |-> "RDX", AH |-> "RAX", BH |-> "RBX", CH |-> "RCX", DH |-> "RDX",
-   SIL |-> "RSI", DIL |-> "RDI", SPL |-> "RSP", BPL |-> "RBP",
-   R8L |-> "R8", R9L |-> "R9", R10L |-> "R10", R11L |-> "R11", R12L |-> "R12", R13L |-> "R13", R14L |-> "R14", R15L |-> "R15",
-   AX |-> "RAX", BX |-> "RBX", CX |-> "RCX", DX |-> "RDX", SI |-> "RSI", DI |-> "RDI", SP |-> "RSP", BP |-> "RBP",
-   R8W |-> "R8", R9W |-> "R9", R10W |-> "R10", R11W |-> "R11", R12W |-> "R12", R13W |-> "R13", R14W |-> "R14", R15W |-> "R15",
-   EAX |-> "RAX", EBX |-> "RBX", ECX |-> "RCX", EDX |-> "RDX", ESI |-> "RSI", EDI |-> "RDI", ESP |-> "RSP", EBP |-> "RBP",
-   R8D |-> "R8", R9D |-> "R9", R10D |-> "R10", R11D |-> "R11", R12D |-> "R12", R13D |-> "R13", R14D |-> "R14", R15D |-> "R15",
-   RAX |-> "RAX", RBX |-> "RBX", RCX |-> "RCX", RDX |-> "RDX", RSI |-> "RSI", RDI |-> "RDI", RSP |-> "RSP", RBP |-> "RBP",
-   R8 |-> "R8", R9 |-> "R9", R10 |-> "R10", R11 |-> "R11", R12 |-> "R12", R13 |-> "R13", R14 |-> "R14", R15 |-> "R15"]
-
-High8 == {"AH","BH","CH","DH"}
-Low8  == {"AL","BL","CL","DL","SIL","DIL","SPL","BPL","R8L","R9L","R10L","R11L","R12L","R13L","R14L","R15L"}
-V8  == Low8 \cup High8
-V16 == {"AX","BX","CX","DX","SI","DI","SP","BP","R8W","R9W","R10W","R11W","R12W","R13W","R14W","R15W"}
-V32 == {"EAX","EBX","ECX","EDX","ESI","EDI","ESP","EBP","R8D","R9D","R10D","R11D","R12D","R13D","R14D","R15D"}
-V64 == Gpr64
-GprViews == V8 \cup V16 \cup V32 \cup V64            \* the 68 views
-\* names the API type admits but that are not general-purpose views
-OtherNames == {"RIP","EIP"} \cup {"XMM0","XMM1","XMM2","XMM3","XMM4","XMM5","XMM6","XMM7",
-                                  "XMM8","XMM9","XMM10","XMM11","XMM12","XMM13","XMM14","XMM15"}
-Names == GprViews \cup OtherNames
-
-WidthOf(v) == IF v \in V8 THEN 8 ELSE IF v \in V16 THEN 16 ELSE IF v \in V32 THEN 32 ELSE 64
-OffOf(v)   == IF v \in High8 THEN 1 ELSE 0                 \* first digit (0-based) of the view
-
-\* which names a w-bit accessor accepts: the GPR views of that width; the 64-bit accessors also take RIP
-Accepts(w, v) == \/ (v \in GprViews /\ WidthOf(v) = w)
-                 \/ (w = 64 /\ v = "RIP")
-BaseOf(v) == IF v = "RIP" THEN "RIP" ELSE Base64[v]
-
-\* pure view semantics on a register file  rf : AllRegs -> digit sequence of length RegLen
-ReadView(rf, v) ==
-  LET r == rf[BaseOf(v)] o == OffOf(v) n == DigitsOf(IF v = "RIP" THEN 64 ELSE WidthOf(v))
-  IN [i \in 1..n |-> r[o + i]]
-
-\* value: a digit sequence of exactly the view's length
-WriteView(rf, v, val) ==
-  LET b == BaseOf(v) r == rf[b] o == OffOf(v)
-      w == IF v = "RIP" THEN 64 ELSE WidthOf(v)
-      n == DigitsOf(w)
-      nr == [i \in 1..RegLen |->
-               IF i > o /\ i <= o + n THEN val[i - o]
-               ELSE IF w = 32 THEN 0                      \* 32-bit writes zero the upper half
-               ELSE r[i]]
-  IN [rf EXCEPT ![b] = nr]
-
-\* the API passes a 64-bit value; it fits a w-bit view iff the digits above the view are zero
-Fits(val, w) == \A i \in (DigitsOf(w) + 1)..RegLen : val[i] = 0
+CONSTANT ModelRegs     \* the registers carried in the state (all 17 in trace validation, a few in MC)
 
 VARIABLES regs,     \* ModelRegs -> Seq(Digit)
           ret       \* result of the last call: [k |-> "ok"|"err", v |-> value or <<>>]
